@@ -181,7 +181,7 @@ def run(ctx) -> None:
         types = prog.local_types(fn)
         for nd in walk_no_nested(fn.node):
             if isinstance(nd, ast.Compare) and any(isinstance(o, (ast.Lt, ast.LtE, ast.Gt, ast.GtE)) for o in nd.ops):
-                operands = [nd.left] + list(nd.comparators)
+                operands = [shapes.inline(fn, o, prog) for o in [nd.left] + list(nd.comparators)]
                 names = {x.id for o in operands for x in ast.walk(o) if isinstance(x, ast.Name)} | {x.attr for o in operands for x in ast.walk(o) if isinstance(x, ast.Attribute)}
                 if not (names & version_names) and not any("version" in nm.lower() for nm in names):
                     continue
